@@ -4,7 +4,7 @@ from common import *
 from sighash_common import *
 
 PID = "C04"
-TIES = ['encode_varint']   # source-tie files coq/Properties/Tie_<f>.v that belong to this property
+TIES = ['encode_varint', 'segwit_digest']   # source-tie files coq/Properties/Tie_<f>.v that belong to this property
 THEOREMS = ["C04_digest"]
 TECHNIQUE = "Coq proof (preimage refinement to BIP143, CompactSize lengths, all counts and sizes) + extracted model/spec and Python-oracle correspondence, real P2WPKH/P2WSH signatures under libsecp256k1"
 RULE = ("transactions of 1..8 inputs and 0..8 outputs, every input index, six hash types, script codes and output scripts of 0..70000 bytes "
